@@ -6,8 +6,10 @@ C01Bridge.lean (by `decide`) say so about the source of THIS run.
 
 Sections (each falls back to its pinned copy in tools/pinned/RoundTrip.lean when an ANCHOR - a function, a
 `push_attribute` site, a file constant - is not found: a refactor is never an alarm, the result then says
-`extraction: pinned`).  A gate whose CONDITION has a shape the translator does not know is NOT a missing anchor: it
-is emitted verbatim as `cond:<text>`, so that the tie theorems fail and the correspondence run supplies the input.
+`extraction: pinned`).  Policy, as for every other extractor: a condition or expression whose SHAPE the translator
+does not know makes that ROW fall back to its pinned value (reported in `pinned_sections` with the reason; the
+behavioural tie is then the only one for that row); a KNOWN shape with different CONTENT (`!x` for `x`, `!= 0.0` for
+the identity test, `len() > 1` for `!is_empty()`, `<` for `<=`) is extracted as it is and fails the tie theorem.
 
   glifWriter         src/glyph/serialize.rs: per glif element and attribute the value at which the attribute is
                      omitted (`-` = always written, none / false / true / 0 / 1 / offcurve / cond:..) and the formatting
@@ -36,6 +38,32 @@ PINNED = os.path.join(ROOT, "tools", "pinned", "RoundTrip.lean")
 
 class NotFound(Exception):
     pass
+
+
+class UnknownShape(Exception):
+    """a condition / expression the translator cannot read: the row falls back to its pinned value"""
+    pass
+
+
+# set by generate(): the pinned tables (for row-level fall-back) and the list of rows that fell back
+CTX = {"pinned": {}, "rows": []}
+
+
+def pinned_rows(section, width):
+    """the rows of a pinned table as tuples of strings"""
+    text = CTX["pinned"].get(section, "")
+    rows = []
+    for m in re.finditer(r"[⟨(]((?:\"(?:[^\"\\]|\\.)*\"\s*,\s*){%d}\"(?:[^\"\\]|\\.)*\")[⟩)]" % (width - 1), text):
+        rows.append(tuple(x.replace('\\"', '"').replace("\\\\", "\\") for x in re.findall(r"\"((?:[^\"\\]|\\.)*)\"", m.group(1))))
+    return rows
+
+
+def row_fallback(section, key, width, reason):
+    for r in pinned_rows(section, width):
+        if r[:len(key)] == key:
+            CTX["rows"].append("%s row %s (%s)" % (section, ".".join(key), reason))
+            return r
+    raise NotFound("%s row %s: %s, and no pinned row" % (section, ".".join(key), reason))
 
 
 def strip_comments(src):
@@ -133,7 +161,16 @@ def omitted_of_if(header):
         return "false"
     if re.fullmatch(r"!" + PATH, h):
         return "true"
-    return "cond:" + sanitize(header)
+    m = re.fullmatch(r"(" + PATH + r")!=(?:[A-Za-z_]+::)+([A-Za-z_]+)", h)
+    if m:
+        return m.group(2).lower()
+    m = re.fullmatch(r"(" + PATH + r")\.len\(\)(>|>=|!=|==|<|<=)([0-9]+)", h)
+    if m:
+        # a test on the length that is not the emptiness test: known shape, other content
+        if (m.group(2), m.group(3)) in ((">", "0"), ("!=", "0"), (">=", "1")):
+            return "empty"
+        return "len-not-%s%s" % ({">": "gt", ">=": "ge", "!=": "ne", "==": "eq", "<": "lt", "<=": "le"}[m.group(2)], m.group(3))
+    raise UnknownShape("condition `%s`" % sanitize(header))
 
 
 def gate_at(body, pos):
@@ -154,12 +191,14 @@ def gate_at(body, pos):
     if kind == "for":
         return "each"
     if kind == "if":
-        return ("cond:else:" + sanitize(header)) if in_else else omitted_of_if(header)
+        if in_else:
+            raise UnknownShape("else branch of `%s`" % sanitize(header))
+        return omitted_of_if(header)
     # match: the patterns of the arms that do nothing
     arms = body[i + 1:j - 1]
     empty = re.findall(r"([A-Za-z_:|\s]+?)\s*=>\s*(?:\{\s*\}|\(\s*\))\s*,?", arms)
     if not empty:
-        return "cond:match:" + sanitize(header)
+        raise UnknownShape("match on `%s` without an empty arm" % sanitize(header))
     names = []
     for pat in empty:
         for alt in pat.split("|"):
@@ -188,7 +227,7 @@ def fmt_of(expr, body):
         return "str"
     if e.startswith("&*") or e.endswith(".as_str()"):
         return "str"
-    return "expr:" + sanitize(expr)
+    raise UnknownShape("expression `%s`" % sanitize(expr))
 
 
 ATTR_SITE = re.compile(r"\.push_attribute\(\(\s*\"(\w+)\"\s*,\s*((?:[^()]|\((?:[^()]|\([^()]*\))*\))*?)\)\)", re.S)
@@ -202,13 +241,23 @@ def attr_rows(body, elem, transform_rows):
     if not sites:
         raise NotFound("no push_attribute in the writer of <%s>" % elem)
     for pos, attr, expr in sorted(sites):
-        g = gate_at(body, pos)
         if attr is None:
-            for (_, a, om, f) in transform_rows:
-                rows.append((elem, a, om if g == "-" else "cond:nested:" + g, f))
-                order.append(a)
+            try:
+                g = gate_at(body, pos)
+                if g != "-":
+                    raise UnknownShape("transform attributes written under a gate")
+                for (_, a, om, f) in transform_rows:
+                    rows.append((elem, a, om, f))
+                    order.append(a)
+            except UnknownShape as ex:
+                for (_, a, om, f) in transform_rows:
+                    rows.append(row_fallback("glifWriter", (elem, a), 4, str(ex)))
+                    order.append(a)
         else:
-            rows.append((elem, attr, g, fmt_of(expr, body)))
+            try:
+                rows.append((elem, attr, gate_at(body, pos), fmt_of(expr, body)))
+            except UnknownShape as ex:
+                rows.append(row_fallback("glifWriter", (elem, attr), 4, str(ex)))
             order.append(attr)
     return rows, order
 
@@ -243,13 +292,16 @@ def glif_writer_tables(ser):
     for m in ATTR_SITE.finditer(gb):
         # the attribute belongs to the closest start tag before it
         elem = "advance" if m.start() > adv.start() and (m.start() - adv.start()) < 600 else "glyph"
-        g = gate_at(gb, m.start())
-        if elem == "advance":
-            # the gate of the element itself is reported in glifElementGates; here the gate inside it
-            inner = [b for b in blocks(gb) if b[2] < m.start() < b[3]]
-            inner.sort(key=lambda b: b[2])
-            g = omitted_of_if(inner[-1][1]) if inner and inner[-1][2] > adv.start() else "-"
-        rows.append((elem, m.group(1), g, fmt_of(m.group(2), gb)))
+        try:
+            g = gate_at(gb, m.start())
+            if elem == "advance":
+                # the gate of the element itself is reported in glifElementGates; here the gate inside it
+                inner = [b for b in blocks(gb) if b[2] < m.start() < b[3]]
+                inner.sort(key=lambda b: b[2])
+                g = omitted_of_if(inner[-1][1]) if inner and inner[-1][2] > adv.start() else "-"
+            rows.append((elem, m.group(1), g, fmt_of(m.group(2), gb)))
+        except UnknownShape as ex:
+            rows.append(row_fallback("glifWriter", (elem, m.group(1)), 4, str(ex)))
     orders.append(("glyph", [m.group(1) for m in ATTR_SITE.finditer(gb) if m.start() < adv.start()]))
     orders.append(("advance", [m.group(1) for m in ATTR_SITE.finditer(gb) if m.start() > adv.start()]))
     return rows, orders, gb
@@ -287,7 +339,18 @@ def sec_glif_elements(src):
         m = re.search(pat, gb)
         if not m:
             raise NotFound("site of <%s> in encode_xml_impl" % elem)
-        rows.append((elem, gate_at(gb, m.start())))
+        try:
+            g = gate_at(gb, m.start())
+            if elem == "lib" and g == "both-empty":
+                # `if !self.lib.is_empty() || !object_libs.is_empty()`: what is written is the lib plus the object
+                # libs, so "both empty" is "the written lib is empty"
+                hdr = [b[1] for b in blocks(gb) if b[2] < m.start() < b[3]]
+                hs = sorted(re.sub(r"\s+", "", hdr[-1]).split("||")) if hdr else []
+                if hs == ["!object_libs.is_empty()", "!self.lib.is_empty()"]:
+                    g = "empty"
+            rows.append((elem, g))
+        except UnknownShape as ex:
+            rows.append(row_fallback("glifElementGates", (elem,), 2, str(ex)))
     return ("def glifElementGates : List (String × String) :=\n  [" +
             ", ".join("(%s, %s)" % (lean_s(a), lean_s(b)) for a, b in sorted(rows)) + "]\n")
 
@@ -401,22 +464,38 @@ def sec_file_gates(src):
         m = re.search(r"\.join\(\s*" + const + r"\s*\)", body)
         if not m:
             raise NotFound("path.join(%s) in save_impl" % const)
-        rows.append((name, gate_at(body, m.start())))
+        try:
+            rows.append((name, gate_at(body, m.start())))
+        except UnknownShape as ex:
+            rows.append(row_fallback("fileGates", (name,), 2, str(ex)))
     lb = fn_body(src["layer"], "layerinfo_to_file_if_needed")
     m = re.search(r"\bif\s+([^{]+)\{\s*return\s+Ok\(\(\)\)\s*;\s*\}", lb)
     if not m:
         raise NotFound("early return of layerinfo_to_file_if_needed")
     cond = re.sub(r"\s+", "", m.group(1))
-    if cond in ("self.color.is_none()&&self.lib.is_empty()", "self.lib.is_empty()&&self.color.is_none()"):
-        g = "color-none-and-lib-empty"
-    else:
-        g = "cond:" + sanitize(m.group(1))
-    rows.append(("layerinfo.plist", g))
+    keyrows = {}
     for key in ("color", "lib"):
         mm = re.search(r'\.insert\(\s*"%s"\.into\(\)' % key, lb)
         if not mm:
             raise NotFound('dict.insert("%s") in layerinfo_to_file_if_needed' % key)
-        rows.append(("layerinfo.plist:" + key, gate_at(lb, mm.start())))
+        try:
+            keyrows[key] = gate_at(lb, mm.start())
+        except UnknownShape as ex:
+            keyrows[key] = row_fallback("fileGates", ("layerinfo.plist:" + key,), 2, str(ex))[1]
+    if cond in ("self.color.is_none()&&self.lib.is_empty()", "self.lib.is_empty()&&self.color.is_none()"):
+        g = "color-none-and-lib-empty"
+    elif (re.fullmatch(r"\w+\.is_empty\(\)", cond) and len(re.findall(r"\b" + cond.split(".")[0] + r"\.insert\(", lb)) == 2
+          and lb.find(m.group(0)) > max(lb.find('"color".into()'), lb.find('"lib".into()'))):
+        # the dictionary is built first and nothing is written when it is empty: the file is skipped exactly when
+        # neither key was inserted, i.e. under the conjunction of the two key gates
+        g = {("none", "empty"): "color-none-and-lib-empty"}.get((keyrows["color"], keyrows["lib"]))
+        if g is None:
+            g = "color-%s-and-lib-%s" % (keyrows["color"], keyrows["lib"])
+    else:
+        g = row_fallback("fileGates", ("layerinfo.plist",), 2, "condition `%s`" % sanitize(m.group(1)))[1]
+    rows.append(("layerinfo.plist", g))
+    for key in ("color", "lib"):
+        rows.append(("layerinfo.plist:" + key, keyrows[key]))
     return ("def fileGates : List (String × String) :=\n  [" +
             ",\n   ".join("(%s, %s)" % (lean_s(a), lean_s(b)) for a, b in sorted(rows)) + "]\n")
 
@@ -596,6 +675,7 @@ def split_sections(text):
 
 def generate(repo):
     pinned = split_sections(open(PINNED).read()) if os.path.exists(PINNED) else {}
+    CTX["pinned"], CTX["rows"] = pinned, []
     src, err = {"repo": repo}, None
     try:
         for key, rel in (("ser", "src/glyph/serialize.rs"), ("par", "src/glyph/parse.rs"), ("mod", "src/glyph/mod.rs"),
@@ -609,8 +689,12 @@ def generate(repo):
         try:
             if err is not None:
                 raise NotFound(str(err))
+            before = len(CTX["rows"])
             body = f(src)
-        except (NotFound, IndexError, ValueError, KeyError, AttributeError) as ex:
+            for r in dict.fromkeys(CTX["rows"][before:]):
+                if r not in fell_back:
+                    fell_back.append(r)
+        except (NotFound, UnknownShape, IndexError, ValueError, KeyError, AttributeError) as ex:
             if name not in pinned:
                 raise
             body = pinned[name]
